@@ -6227,6 +6227,20 @@ func (c *GoCompiler) compileBigFloatLiteralNode(node *ast.BigFloatLiteralNode) *
 	)
 }
 
+// Go source of a Float constant: %g renders the non-finite values as +Inf / -Inf / NaN,
+// which are not Go expressions.
+func goFloatSource(f float64) string {
+	switch {
+	case math.IsNaN(f):
+		return "value.FloatNaN()"
+	case math.IsInf(f, 1):
+		return "value.FloatInf()"
+	case math.IsInf(f, -1):
+		return "value.FloatNegInf()"
+	}
+	return fmt.Sprintf("value.Float(%g)", f)
+}
+
 func (c *GoCompiler) compileFloatLiteralNode(node *ast.FloatLiteralNode) *goValue {
 	f, err := strconv.ParseFloat(node.Value, value.SmallIntBits)
 	if err != nil {
@@ -15628,7 +15642,7 @@ func (c *GoCompiler) valueToGoSource(val value.Value, typ types.Type, allowMutab
 		)
 	case value.FLOAT_FLAG:
 		return newGoValue(
-			fmt.Sprintf("value.Float(%g)", val.AsFloat()),
+			goFloatSource(float64(val.AsFloat())),
 			c.checker.Std(symbol.Float),
 			value.FetchGoType("value.Float"),
 		)
